@@ -5,10 +5,12 @@ CONSTANTS Spas = {"a", "b", "c"}
           Initial = 3
           Timeout = 6
           MaxArrivals = 4
+          ListsAll = FALSE
 INVARIANT NoDuplicates
 INVARIANT OnlyRequested
 INVARIANT WithinTimeout
 INVARIANT PromptWhenFiltered
+INVARIANT PromptWhenFound
 INVARIANT PromptWhenAny
 INVARIANT NotEarly
 CHECK_DEADLOCK FALSE
